@@ -193,27 +193,58 @@ def correspondence(ctx):
 # --------------------------------------------------------------------------
 # failing-input search (implementation only): virtual_size == the size the builder encoded
 
-def vsize_of(fmt, data, sizes):
-    return G.vfield(G.impl_run(fmt, data, sizes)[1], 'vsize')
+def vsize_of(fmt, data, sizes, poll=None):
+    """final virtual_size; `poll` = 'all' or a set of chunk indices after which every public observer
+    (virtual_size, format_match, complete, context_info, safety_check ...) is queried during the feed"""
+    q = None
+    if poll is not None:
+        k = [0]
+
+        def q(i):
+            if poll == 'all' or k[0] in poll:
+                insp_impl.poke(i)
+            k[0] += 1
+    return G.vfield(G.impl_run(fmt, data, sizes, query=q)[1], 'vsize')
 
 
-def check_wellformed(ctx, img, expected, fam, fails, what):
-    """virtual_size under every chunking equals `expected`"""
+def check_wellformed(ctx, img, expected, fam, fails, what, poll_p=0.35):
+    """virtual_size under every chunking equals `expected` - also when the observers are polled while
+    the stream is being fed (on a fraction `poll_p` of the chunkings: after every chunk, and after a
+    random subset of the chunks)"""
     want = str(expected)
     n = len(img.data)
+    rng = ctx.rng
     for tag, sizes in fam:
         ctx.evaluations += 1
-        got = vsize_of(img.fmt, img.data, sizes)
-        if got != want:
-            small = G.shrink_cuts(n, sizes, lambda s: vsize_of(img.fmt, img.data, s) != want)
-            got = vsize_of(img.fmt, img.data, small)
+        polls = [None]
+        if len(sizes) >= 2 and rng.random() < poll_p:
+            polls += ['all', sorted(rng.sample(range(len(sizes)), max(1, min(len(sizes) // 2, 20))))]
+        for poll in polls:
+            if poll is not None:
+                ctx.evaluations += 1
+                ctx.count('search/with-intermediate-queries')
+            got = vsize_of(img.fmt, img.data, sizes, poll)
+            if got == want:
+                continue
+            if poll is not None:
+                poll = 'all' if vsize_of(img.fmt, img.data, sizes, 'all') != want else poll
+            if poll in (None, 'all'):
+                small = G.shrink_cuts(n, sizes, lambda s: vsize_of(img.fmt, img.data, s, poll) != want)
+            else:
+                small = sizes
+            got = vsize_of(img.fmt, img.data, small, poll)
             parent = getattr(img, 'parent', img)
-            fails.append(Failure({'kind': 'insp', 'fmt': img.fmt, 'content': img.field, 'length': n, 'wellformed': True,
-                                  'sizes': G.pack_sizes(small), 'expected': want, 'params': parent.params,
-                                  'prefix_of': len(parent.data), 'size_structure_ends_at': parent.size_at, 'tag': img.tag},
-                                 {'kind': what, 'what': '%s: virtual_size is %s, the image declares %s (%s; %d of %d bytes '
-                                                        'presented, chunk sizes %s)' % (img.fmt, got, want, img.tag, n, len(parent.data),
-                                                                                        G.pack_sizes(small)[:8])}))
+            case = {'kind': 'insp', 'fmt': img.fmt, 'content': img.field, 'length': n, 'wellformed': True,
+                    'sizes': G.pack_sizes(small), 'expected': want, 'params': parent.params,
+                    'prefix_of': len(parent.data), 'size_structure_ends_at': parent.size_at, 'tag': img.tag}
+            if poll is not None:
+                case['poll'] = poll
+            fails.append(Failure(case, {
+                'kind': what if poll is None else what + '-after-intermediate-queries',
+                'what': '%s: virtual_size is %s, the image declares %s (%s; %d of %d bytes presented, chunk sizes %s%s)'
+                        % (img.fmt, got, want, img.tag, n, len(parent.data), G.pack_sizes(small)[:8],
+                           '' if poll is None else '; observers queried after %s'
+                           % ('every chunk' if poll == 'all' else 'chunks %s' % poll[:10]))}))
             return True
     return False
 
@@ -249,7 +280,8 @@ def search(ctx, seeds, full=False):
                     size_at=s.get('size_at'), params=s.get('params'), wellformed='declared' in s)
         fam = [('seed', G.unpack_sizes(s['sizes']))] + family(img, rng, ctx.quick, False)
         if img.wellformed:
-            check_wellformed(ctx, img, img.declared, fam, fails, 'virtual-size-is-not-the-declared-size')
+            # the correspondence interleaves queries on the Python side: always poll on the disagreeing cases
+            check_wellformed(ctx, img, img.declared, fam, fails, 'virtual-size-is-not-the-declared-size', poll_p=1.0)
         else:
             check_illformed(ctx, img, fam, fails)
         if len(fails) >= 5:
@@ -340,14 +372,19 @@ def replay(ctx, payload):
     rc = 0
     names = ['sizes_a', 'sizes_b'] if 'sizes_a' in case else ['sizes']
     got = []
+    poll = case.get('poll')
     for name in names:
         sizes = G.unpack_sizes(case[name])
         impl = insp_impl.run_insp(fmt, data, sizes)[0]
+        if poll is not None:
+            print('with the observers queried after %s:' % ('every chunk' if poll == 'all' else 'chunks %s' % poll))
+            print('  implementation virtual_size:', vsize_of(fmt, data, sizes, 'all' if poll == 'all' else set(poll)))
         model = ctx.driver.ask(G.insp_line(fmt, case['content'], sizes, False))
         print('%s, %d bytes, chunk sizes %s' % (fmt, len(data), case[name][:12]))
         print('  implementation:', impl[-1200:])
         print('  model         :', model[-1200:])
-        got.append(G.vfield(impl.split('\t')[-1], 'vsize'))
+        got.append(G.vfield(impl.split('\t')[-1], 'vsize') if poll is None
+                   else vsize_of(fmt, data, sizes, 'all' if poll == 'all' else set(poll)))
         if impl != model:
             rc = 1
     if 'expected' in case:
